@@ -131,6 +131,6 @@ def vc_dual(H, cls='MultiVector', rel=MV):
                     ctx.oblige(f'post: {meth}() with r > 1 raises',
                                z3.Implies(z3.And(z3.Not(is0), z3.Not(is1)), z3.BoolVal(raised is not None)))
                 if raised is not None:
-                    raise raised
+                    ctx.notes.append('expected-raise'); raise raised
                 return r
             H.run_paths(fuc, f'kind={kind}', body)
